@@ -43,10 +43,17 @@ package poly1305
 //@ ensures implies(cap(b) - len(b) >= 16, sameobj(result, b) && off(result) == off(b))
 //@ ensures implies(cap(b) - len(b) < 16, newobj(result) && sameoutside(b[len(b):len(b)]))
 
+// Verify accepts exactly a 16-byte expected value equal to the computed tag (no prefix, no longer string);
+// the body is verified under the assumed representation invariant of the receiver's buffer (established
+// by New, preserved by (*mac).Write as proved below), which callers cannot be asked for.
 //@ func (*MAC).Verify
-//@ trusted
+//@ props C04
 //@ note constant-time comparison of the tag of the stream written so far with expected
-//@ pure
+//@ assume_global minv(&h.mac)
+//@ modifies h.finalized
+//@ mark TAG "h.finalized = true"
+//@ ensures iff(result, len(expected) == 16 && forall(i, 0, 16, expected[i] == at(TAG, mac[i])))
+//@ canary ensures !result
 
 // ---- C04: block bookkeeping of the incremental MAC on the assembly path ----
 // update (assembly) is trusted: it absorbs msg into the accumulator; the bytes absorbed are recorded in
